@@ -245,8 +245,9 @@ package socket
 //@   nopanic
 //@   requires c != nil && c.results != nil
 //@   modifies c.counter, c.results[*], ghost.held[addr(c.lock)], ghost.chansent[*], ghost.chanlen[*], ghost.chanrecv[*]
-//@   ensures [index_is_31_bit] 0 <= index && index < 2147483648
-//@   ensures [gave_up_leaves_no_entry] err != nil && ghost.chanrecv[resultChan] == 0 ==> !haskey(c.results, index)
+//@   ensures [too_large_for_the_frame_is_refused] len(request) > 2147483647 ==> err == core.ErrRequestEntityTooLarge && response == nil
+//@   ensures [index_is_31_bit] len(request) <= 2147483647 ==> 0 <= index && index < 2147483648
+//@   ensures [gave_up_leaves_no_entry] len(request) <= 2147483647 && err != nil && ghost.chanrecv[resultChan] == 0 ==> !haskey(c.results, index)
 
 // ---- fault containment (C11): goroutine roots ---------------------------------
 //
